@@ -29,6 +29,21 @@ folded or not, labels with blanks, 0-5 comments, precision 16..20, plain / .gz n
   (v)   source-shape obligations (fail closed): statements of to_file / from_file / array_to_file / array_from_file /
         pickler / unpickler are the ones the model was written against; data and mask lines come from the C-order ravel
         of the logical array; the readers reshape in C order.
+  (vi)  argument / attribute types (c14_types.py): every generated spectrum is ALSO built, and every call made, with the other
+        Python / numpy types the API accepts - data_folded as numpy.bool_ (array element, numpy.all result, comparison) / int /
+        numpy integer / float / 0-d array; mask as int / uint8 / float array, nested list / tuple, numpy.ma.nomask / None / False;
+        data as nested list / tuple, masked array, longdouble, big-endian, object array and - on a derived content that the type
+        holds exactly - uint8 .. int64, float16, float32, int list; pop_ids and comment_lines as tuple / numpy str / object array /
+        list of numpy.str_ / generator; precision as numpy integer / float / 0-d array; foldmaskinfo / mask_corners /
+        return_comments as numpy.bool_ / int / 0-d array; file names as numpy.str_ / pathlib.Path / bytes / open file object -
+        one factor at a time and combined, through to_file/from_file (own and opposite configuration: .gz, foldmaskinfo=False),
+        array_to_file/array_from_file, the pickler, pickle protocols and deepcopy.  Every accepted spelling must build the
+        canonical object, write the Coq-certified reference text, and read back the canonical-form result; for flag / label
+        container variants the model's to_file of the OBJECT (Model.to_file_obj with the [pyflag] / [seqkind] the implementation
+        reports) and its reduce tuple are compared inside Coq (items IWriteF / IPickleF).  What the unchanged library rejects
+        (reviewed table c14_types.REJECTED) is counted, not compared.
+  (vii) when a source-shape obligation or the correspondence breaks and no round trip failed: targeted search over fresh spectra
+        with every PAIR of argument / attribute dimensions in a non-canonical type, before no-failing-input-found is reported.
 Kept out of the generator because the format cannot carry them and the property does not promise them
 (C14_label_with_quote_refuted, hypotheses of C14_roundtrip): labels containing a double quote, labels or
 comments with an embedded line terminator, non-ASCII text, axes of length 0.
@@ -37,6 +52,7 @@ import json, math, os
 from harness import lib
 from harness.lib import b
 from harness.props import c14_layouts as LY
+from harness.props import c14_types as TY
 
 INF = float('inf')
 
@@ -327,6 +343,9 @@ GZ_KEYS = {'write': ('to_file-gz-TypeError',
            'read': ('from_file-gz-TypeError',
                     'Spectrum.from_file with a file name ending in .gz raises TypeError (gzip stream opened with mode "rb", compared/split as str) - Spectrum_mod.py:224')}
 
+import sys
+H = sys.modules[__name__]      # handed to c14_types (tok / mirror_text / diff_read / Coq literal helpers)
+
 def run(ctx):
     ctx.rule = ('cases = (d in 1..5, shape with singleton axes, values: counts / +-0 / landmark doubles / mantissa x 10^[-300,299] / +-inf / nan, '
                 'mask density in {0,.15,.3,.5,1} (+corners), folded (declared or via fold()), labels from a pool with blanks/tabs/#/flag words or None, '
@@ -334,6 +353,10 @@ def run(ctx):
                 'array writer on ndarray / masked Spectrum / open file, hand-written pre-1.3 layouts) from one PRNG; '
                 'each case x memory layouts {reorder_pops, transpose, T, swapaxes, fortran, ctor_permuted (d>=2, permutation moving the non-singleton axes), '
                 'step, neg, nocopy_view (all d), mask_broadcast, mask_scalar (constant mask), nomask (no masked entry)} x 2 writer configurations; '
+                'each case x argument / attribute types {data_folded: 9 non-bool types, mask: 6 (+4 when nothing is masked), data: 6 containers / dtypes '
+                '+ a derived content (8-bit counts / 24-bit ints / float16- / float32-exact by case id) in every dtype holding it exactly, pop_ids: 4, '
+                'comment_lines: 5, precision: 6, foldmaskinfo / mask_corners / return_comments: 3 each, file name: 4} one factor at a time + 3 all-factor '
+                'combinations x {to_file/from_file in 2 configurations, array_to_file/array_from_file, pickler, 3 pickle protocols, deepcopy}; '
                 'distinct = distinct (shape, values, mask, flags, labels, comments, precision); non-trivial = more than one entry or labels or comments')
     ctx.assumptions += [
         "oracle of the model: '%.<p>g' % x is a non-empty token without white space and numpy reads it back as x rounded to p significant digits "
@@ -345,6 +368,10 @@ def run(ctx):
         'quote, labels/comments with an embedded line terminator, non-ASCII text, zero-length axes']
     ctx.assumptions += ['memory layouts: the block / offset / strides of data and mask are read off the numpy objects by the driver (rebuilt from '
                         'exactly these and compared bit for bit before they count); the logical content is computed from them by the model inside Coq']
+    ctx.assumptions += ['argument / attribute types: which spellings the library accepts was established on the unchanged tree (table '
+                        'c14_types.REJECTED: Spectrum.to_file / from_file take str-like names only - pathlib.Path, bytes and open file objects raise); '
+                        'an accepted spelling must give the canonical-form result (bool(flag), list of label items, float64 entries, bool mask); '
+                        'dtype variants use a derived content the dtype holds exactly (the conversion itself is numpy\'s)']
     src_broken = LY.source_obligations(ctx)
     ctx.trusted += ['Section variables of Proofs/FileFormatProofs.v: fmt, parse, round with parse (fmt p x) = round p x and tok_ok (fmt p x) '
                     '(instance tnum proves them satisfiable); the pickle protocol itself (bytes <-> reduce tuple) and gzip are trusted']
@@ -386,6 +413,9 @@ def run(ctx):
         if 'layouts' not in c:
             # quick: every case; thorough: every second case (2000 spectra x ~10 layouts) to stay inside the time budget
             c['layouts'] = LY.gen_layouts(c, ctx.seed, c['_mask']) if (ctx.quick or c['id'] % 2 == 0) else []
+        if 'types' not in c:
+            # quick: every case; thorough: every fourth case (1000 spectra x ~60 spellings)
+            c['types'] = TY.gen_types(H, c, ctx.seed, c['_data'], c['_mask'], c['_folded']) if (ctx.quick or c['id'] % 4 == 0) else None
     payload = [{k: v for k, v in c.items() if not k.startswith('_')} for c in cases]
     # the driver is run on 4 slices of the cases side by side (fresh interpreter each)
     from concurrent.futures import ThreadPoolExecutor
@@ -401,7 +431,7 @@ def run(ctx):
     calls = {}
     def called(k):
         calls[k] = calls.get(k, 0) + 1
-    def violation(cls, what, c, r, key=None, layout=None):
+    def violation(cls, what, c, r, key=None, layout=None, types=None):
         if key is not None:
             if key in seen_keys:
                 return
@@ -413,10 +443,15 @@ def run(ctx):
         data = {'case': {k: v for k, v in c.items() if not k.startswith('_')}, 'impl': r}
         if layout is not None:
             data['layout'] = layout
+        if types is not None:
+            data['types'] = types
         ctx.violation(what, data=data, key=key)
     pred_failed = set()
     corr_layout_bad = []
     lay_stats = {}           # layout kind -> counters (regime really exercised)
+    type_stats = {}          # (dimension, kind, counter) of the typed variants
+    def tstat(dim, kind, k):
+        type_stats[(dim, kind, k)] = type_stats.get((dim, kind, k), 0) + 1
     def lstat(kind, k, n=1):
         d0 = lay_stats.setdefault(kind, {})
         d0[k] = d0.get(k, 0) + n
@@ -586,7 +621,7 @@ def run(ctx):
         arefs = {'masked': (amask_toks, array_mirror_text(c['comments'], shape, amask_toks)),
                  'plain': (toks, array_mirror_text(c['comments'], shape, toks))}
         lays = r.get('layouts', [])
-        if lays:
+        if lays or c.get('types'):
             its.add('Model.to_file = reference text of the second writer configuration (precision %d, foldmaskinfo=%s)' % (p2, cfgs[1]['fmi']),
                     '(IWrite %s %s %s %s)' % (ccom, b(cfgs[1]['fmi']),
                                               cspec(shape, toks2, o['mask'], o['folded'], o['pop_ids'], None if o['extrap_x'] is None else repr(o['extrap_x'])),
@@ -736,6 +771,9 @@ def run(ctx):
                 if bad:
                     pred_failed.add(c['id'])
                     violation('layout:%s:pickle:%s' % (kind, cls_of(bad[0])), bad[0][:280], c, lr, layout=linfo)
+        # ---------------- (vi) the same spectrum and the same calls spelled with other argument / attribute types
+        TY.evaluate(ctx, H, c, r, {'violation': violation, 'pred_failed': pred_failed, 'called': called, 'corr_bad': corr_layout_bad,
+                                   'its': its, 'spec': spec, 'ccom': ccom, 'stat': tstat})
         exprs.append((c['id'], its.coq()))
         meta[c['id']] = (c, its)
 
@@ -771,7 +809,8 @@ def run(ctx):
                 corr_bad.append((cid, name))
     # entry points must have been exercised (fail closed)
     need = ['to_file', 'from_file', 'from_file(pre-1.3)', 'copyreg pickler', 'pickle', 'array_to_file', 'array_from_file', 'from_file(array file)',
-            'to_file(layout)', 'from_file(layout)', 'array_to_file(layout)', 'copyreg pickler(layout)', 'pickle(layout)']
+            'to_file(layout)', 'from_file(layout)', 'array_to_file(layout)', 'copyreg pickler(layout)', 'pickle(layout)',
+            'to_file(types)', 'from_file(types)', 'array_to_file(types)', 'array_from_file(types)', 'copyreg pickler(types)', 'pickle(types)']
     for k in ([] if ctx.replay else need):
         ctx.obligation('entry point exercised: %s (%d calls)' % (k, calls.get(k, 0)), calls.get(k, 0) > 0, 'harness')
     ctx.stats.update({'calls_' + k.replace(' ', '_'): v for k, v in calls.items()})
@@ -789,11 +828,47 @@ def run(ctx):
     for kind, d0 in lay_stats.items():
         for k, v in d0.items():
             ctx.stats['layout_%s_%s' % (kind, k)] = v
+    # every argument / attribute type must really have gone through the entry points (fail closed)
+    if not ctx.replay:
+        TY.exercised(ctx, type_stats, ctx.pick(20, 150), ctx.pick(3, 30))
     # correspondence / source obligations broken without any failing input of the property itself
     if (corr_bad or corr_layout_bad or src_broken) and not [v for v in ctx.violations if v['key'] is None]:
-        searched = ('searched %d spectra x %d memory-layout variants through to_file/from_file (2 configurations each), array_to_file/array_from_file '
-                    'and the pickler: every round trip evaluated on the implementation still holds'
-                    % (len(meta), sum(d0.get('built', 0) for d0 in lay_stats.values())))
+        # targeted search before giving up: fresh spectra, every PAIR of argument / attribute dimensions in a non-canonical type
+        nsearch = [0, 0]
+        if not ctx.replay:
+            srng = __import__('random').Random('C14-targeted-search-%d' % ctx.seed)
+            extra = []
+            for k in range(ctx.pick(60, 240)):
+                c = gen_case(srng, 100000 + k, 1 + k % 5, ctx.pick(60, 120))
+                c['via_fold'] = False; c['old_kinds'] = []
+                c['_data'], c['_mask'], c['_folded'] = c['data'], c['mask'], c['folded']
+                c['_toks'] = [tok(x, c['precision']) for x in c['data']]
+                c['mirror_text'] = mirror_text(c['comments'], c['shape'], c['_toks'], c['mask'], c['folded'], c['pop_ids'], c['fmi'])
+                c['_atoks'] = ['nan' if (c['array_masked'] and m) else t for t, m in zip(c['_toks'], c['mask'])]
+                c['array_mirror_text'] = array_mirror_text(c['comments'], c['shape'], c['_atoks'])
+                c['old_files'] = []; c['layouts'] = []
+                c['types'] = TY.gen_types(H, c, ctx.seed, c['data'], c['mask'], c['folded'], pairs=True)
+                extra.append(c)
+            pl = [{k: v for k, v in c.items() if not k.startswith('_')} for c in extra]
+            with ThreadPoolExecutor(4) as ex:
+                parts = list(ex.map(lambda sl: lib.run_impl('c14_impl.py', sl, timeout=3000), [pl[k::4] for k in range(4)]))
+            xid = {r['id']: r for part in parts for r in part}
+            more_bad = []
+            for c in extra:
+                r = xid[c['id']]
+                if r.get('driver_failed') or 'orig' not in r:
+                    continue
+                nsearch[0] += 1
+                nsearch[1] += sum(1 + len(g['variants']) for g in c['types']['groups'])
+                TY.evaluate(ctx, H, c, r, {'violation': violation, 'pred_failed': pred_failed, 'called': called, 'corr_bad': more_bad,
+                                           'its': None, 'spec': None, 'ccom': None, 'stat': lambda *a: None})
+    if (corr_bad or corr_layout_bad or src_broken) and not [v for v in ctx.violations if v['key'] is None]:
+        searched = ('searched %d spectra x %d memory-layout variants and x %d argument / attribute type variants (flag / mask / data / labels / comments / '
+                    'precision / file name / keyword types, one factor at a time and combined) through to_file/from_file (2 configurations each), '
+                    'array_to_file/array_from_file and the pickler, then %d further spectra x %d pairwise type variants: every round trip '
+                    'evaluated on the implementation still holds'
+                    % (len(meta), sum(d0.get('built', 0) for d0 in lay_stats.values()),
+                       sum(v for (dim, kind, k), v in type_stats.items() if k == 'variants'), nsearch[0], nsearch[1]))
         if corr_bad or corr_layout_bad:
             allbad = corr_bad + corr_layout_bad
             cid, name = allbad[0]
